@@ -64,8 +64,10 @@ def multiline_grid(maxcol):
 ARGS = ["b", "'b'", '"b"', "'a' + 'b'", '"a"+"b"', "'a'\n+\n\"b\" + 'c'", '"\\n\\t\\"\\\\"', '"a\\\\n"', "''", '""', "'\"'", '"\'"',
         "+", "a+b", "+'b'", "'b'+", '"a" + b', "'a' 'b'", '"a\n b"', '"a \n\tb"', '" a "', "'é'", '"日本\n  語"', "a'b'", 'a"b"',
         "'a'/**/+//\n'b'", "b/**/", "b//", "/**/b", "'a'+/**/'b'", '"\\q"', '"\\d+\\.\\s"', '"a\\\n b"', '"\\t\n"', '"\\t \n"', '"a\r\nb"',
-        '"a\\ \nb"', '"a\rb"', "'a\r\nb'", '"\t\n\tb"', '"a\n\t\tb"']
-KWS = ["a", "pattern", "é", "+", "/", "a:b", "patternx", "xpattern"]
+        '"a\\ \nb"', '"a\rb"', '"^\\d+$"', '"a" + "\\S"', "'a' + \"\\S\"", '"\\n" + "b" + "\\w+"', '"a"\n+\n"\\."', "'a\r\nb'", '"\t\n\tb"', '"a\n\t\tb"']
+KWS = ["a", "pattern", "é", "+", "/", "a:b", "patternx", "xpattern",
+       # only the unprefixed keyword `pattern` switches pattern mode: not extensions that merely look like it
+       "oc-ext:posix-pattern", "o:pattern", "posix-pattern", "x:foo-pattern", "pattern:x", ":pattern", "o:posix-patternx", "Pattern"]
 GAPS = ["", " ", "\t", "\n", "/**/", " /* c */ ", "//\n", " // c\n\t", "\r\n", "/*/*/", "/* // */", "// /*\n"]
 
 
